@@ -23,6 +23,10 @@ var schedActive bool
 // where per-task step budgets do the same job.
 var Fuel int64
 
+// FuelOuts counts how often the fuel ran out (the panic value may be re-wrapped by the
+// code it passes through, so the count is kept here).
+var FuelOuts int
+
 // ErrFuel is the panic value of an exhausted Fuel.
 var ErrFuel = errFuel{}
 
@@ -39,6 +43,7 @@ func Step(site uint32) {
 	} else if Fuel > 0 {
 		Fuel--
 		if Fuel == 0 {
+			FuelOuts++
 			panic(ErrFuel)
 		}
 	}
